@@ -19,7 +19,7 @@ const char *BOUNDARY[] = {
 	"0777777777777777777777", "01000000000000000000000", "0b111111111111111111111111111111111111111111111111111111111111111",
 	"0b1000000000000000000000000000000000000000000000000000000000000000", "99999999999999999999", "-99999999999999999999", "1e999", "-1e999", "1.7976931348623157e308",
 	"1.7976931348623159e308", "1e308", "1e309", "0x", "0b", "0", "00", "08", "09", "0b2", "0b1", "0x1g", "0xg", "-0x10", "0x-5", "0b+1", "0-7", "-0", "+5", "--5", "+-5", " 5", "5 ", " 5 ",
-	"5x", "x5", "", " ", "1.5", "1.5.5", ".5", "5.", ".", "e5", "1e", "1e+", "1e+2", "1E2", "inf", "nan", "-inf", "0x1p3", "1e-999", "4.9e-324", "1f", "0f", "true", "TRUE", "tRuE", "yes", "YES", "on",
+	"5x", "x5", "", " ", "1.5", "1.5.5", ".5", "5.", ".", "e5", "1e", "1e+", "1e+2", "1E2", "inf", "nan", "-inf", "0x1p3", "1e-999", "4.9e-324", "1e-400", "2.2250738585072014e-308", "1e-310", "1f", "0f", "true", "TRUE", "tRuE", "yes", "YES", "on",
 	"On", "false", "no", "off", "OFF", "1", "maybe", "tru", "truee", "y", "n", "o", "yess", " on", "on ", "0b0", "0x0", "0b", "-", "+", "0b11111111", "0xABCdef", "0XFF", "0B1", "012", "-012", "+012"};
 const int NBOUNDARY = sizeof(BOUNDARY) / sizeof(BOUNDARY[0]);
 
@@ -273,7 +273,7 @@ Property P = [] {
 		 "LONG_MIN/LONG_MAX in radix 2/8/10/16, DBL_MAX, prefixes without digits, stray signs and spaces, boolean words in all cases and near-misses; before every conversion the "
 		 "ambient errno is set to one of {0, ERANGE, EINVAL, ENOENT, EINTR, EBADF, 12345} (F-errno); distinct = distinct (route, type, token, errno) tuples";
 	p.assumptions = {"M-int: accept iff the whole token is [sign]decimal | 0x hex digits+ | 0b binary digits+ | 0 octal digits*, within long; a sign in front of a prefixed numeral and upper-case 0X/0B are don't-cares",
-			 "M-float: accept iff the whole token is a plain decimal floating point numeral whose strtod() value is finite; inf/nan/hex floats/underflow are don't-cares (statement silent); value = C library strtod",
+			 "M-float: accept iff the whole token is a plain decimal floating point numeral whose strtod() value is finite; overflow and underflow (ERANGE) must be rejected (never silently truncated); inf/nan/hex floats are don't-cares (statement silent); value = C library strtod",
 			 "M-bool: the six words, any letter case",
 			 "enumerating the token space is workload generation; the clause only a simulator decides is O-errno / O-scrub over ambient errno and histories"};
 	p.probes = {"conversion_with_stale_ERANGE", "conversion_after_failed_range_check"};
